@@ -53,7 +53,8 @@ Proof.
   intros H. unfold apply_known. destruct (f_custom f); try reflexivity. destruct (fty f) as [k| |idx|kk vk|]; try reflexivity.
   destruct (t_pay t) as [pv|pv|pv|b|] eqn:Ep; try reflexivity.
   destruct (i_repeated (field_info s f)); [rewrite (H idx b _ eq_refl); reflexivity|].
-  destruct (i_pointer (field_info s f)); rewrite (H idx b _ eq_refl); reflexivity.
+  destruct (i_pointer (field_info s f)); [rewrite (H idx b _ eq_refl); reflexivity|].
+  destruct (i_oneof (field_info s f)); rewrite (H idx b _ eq_refl); reflexivity.
 Qed.
 Lemma fold_agree m ts : (forall t idx b x, In t ts -> t_pay t = PBytes b -> rec1 idx b x = rec2 idx b x) ->
   forall o, fold_opt (apply_token s rec1 m) ts o = fold_opt (apply_token s rec2 m) ts o.
